@@ -69,7 +69,8 @@ class IC10Register:
 
         if self._lifetime is None:
             all_nodes = [
-                get_loop_ancestor(n) for n in self.nodes_reading + self.nodes_writing
+                get_loop_ancestor(n, self.nodes_writing)
+                for n in self.nodes_reading + self.nodes_writing
             ]
             min_line = (
                 min(node.lineno for node in all_nodes) if all_nodes else sys.maxsize
